@@ -165,6 +165,38 @@ NonVacuous(u) ==
                         /\ SubSeq(Pts[j].p, 1, Len(Pts[i].p)) = Pts[i].p /\ Len(Pts[i].p) > 0          \* proper prefixes
 
 (* ------------------------------------------------------------------------------------------------ *)
+(* seeded points: RandN integers, floats, timestamps, texts and blobs each, with pseudo-random       *)
+(* digits / bytes, so that every byte position of the 64-bit transforms and every escape position     *)
+(* gets exercised with values nobody picked by hand.  Compared among themselves (all pairs).          *)
+CONSTANTS Seed, RandN
+H(x) == ((x % 65536) * 1103 + 12345) % 65536
+Rnd(i, k) == H(H(H(i * 97 + k) + ((Seed * 13) % 65536)) + k * 31)
+RDigits(i, k0) == LET lead == Rnd(i, k0) % 4 IN      \* 0..3 leading zero digits: all magnitudes occur
+                  [j \in 1..4 |-> IF j <= lead THEN 0 ELSE IF j = 1 THEN Rnd(i, k0 + j) % 32768 ELSE Rnd(i, k0 + j)]
+RSigned(i, k0) == LET d == RDigits(i, k0) neg == IF d = <<0, 0, 0, 0>> THEN 0 ELSE Rnd(i, k0 + 5) % 2 IN <<neg>> \o d
+RInt(i)   == V("int", RSigned(i, 0))
+RTs(i)    == V("timestamp", RSigned(i, 10))
+RFloat(i) == F(Rnd(i, 20) % 2, IF Rnd(i, 21) % 4 = 0 THEN Rnd(i, 22) % 3 ELSE Rnd(i, 22) % 2047, Rnd(i, 23) % 16, Rnd(i, 24), Rnd(i, 25), Rnd(i, 26))
+TextAlpha == <<0, 1, 97, 98, 127>>
+BlobAlpha == <<0, 1, 97, 254, 255>>
+RText(i)  == T([j \in 1..(Rnd(i, 30) % 6) |-> TextAlpha[(Rnd(i, 30 + j) % 5) + 1]])
+RBlob(i)  == B([j \in 1..(Rnd(i, 40) % 6) |-> BlobAlpha[(Rnd(i, 40 + j) % 5) + 1]])
+RandPts == [n \in 1..(5 * RandN) |->
+              LET i == ((n - 1) % RandN) + 1  g == (n - 1) \div RandN IN
+              CASE g = 0 -> RInt(i) [] g = 1 -> RFloat(i) [] g = 2 -> RTs(i) [] g = 3 -> RText(i) [] g = 4 -> RBlob(i)]
+NR == Len(RandPts)
+RandWF(u) == \A i \in 1..NR : WF(RandPts[i])
+RandRankOK(u) == LET r == TLCEval([i \in 1..NR |-> Cardinality({j \in 1..NR : Cmp(RandPts[j], RandPts[i]) < 0})]) IN
+                 \A i \in 1..NR : \A j \in 1..NR :
+                    /\ Cmp(RandPts[i], RandPts[j]) = Sign(r[i] - r[j])
+                    /\ (Cmp(RandPts[i], RandPts[j]) = 0 <=> SameKeyAllowed(RandPts[i], RandPts[j]))
+RpRec(i) == [k |-> "rp", i |-> i, v |-> RandPts[i], canon |-> Canon(RandPts[i]), canonz |-> CanonZ(RandPts[i]),
+             cmp  |-> [j \in 1..NR |-> Cmp(RandPts[i], RandPts[j])],
+             cmpt |-> [j \in 1..NR |-> CmpT(RandPts[i], RandPts[j])],
+             open |-> [j \in 1..NR |-> 0],
+             same |-> [j \in 1..NR |-> IF SameKeyAllowed(RandPts[i], RandPts[j]) THEN 1 ELSE 0]]
+
+(* ------------------------------------------------------------------------------------------------ *)
 (* composite keys: all 2-tuples over R2 and all 3-tuples over R3                                    *)
 R2 == << Null, V("bool", <<0>>), V("bool", <<1>>), FNInf, IM1, FN1_5, I0, FNZero, F1, I1, FNaNq,
          T(<<>>), T(<<0>>), T(<<97>>), T(<<97, 0>>), T(<<97, 98>>), B(<<>>), B(<<0>>), B(<<255>>), D(0) >>
@@ -199,7 +231,7 @@ T2Rec(ix) == [k |-> "t2", ix |-> ix, cols |-> Row2(ix), rank |-> Rank2(ix)]
 T3Rec(ix) == [k |-> "t3", ix |-> ix, cols |-> Row3(ix), rank |-> Rank3(ix)]
 TCRec(ix) == [k |-> "tc", ix |-> ix, cols |-> RowC(ix), rank |-> RankC(ix)]
 
-CONSTANT Sel       \* the parts to run (all: 0..10)
+CONSTANT Sel       \* the parts to run (all: 0..11)
 VARIABLES part, done
 Parts == Sel
 Init == part \in Parts /\ done = FALSE
@@ -216,5 +248,8 @@ Next == /\ done = FALSE /\ done' = TRUE /\ part' = part
                            /\ \A ix \in TupC : PrintT(<<"T", ToJson(TCRec(ix))>>)
             [] part \in 5..6 -> \A ix \in {jx \in Tup2 : jx[1] % 2 = part - 5} : PrintT(<<"T", ToJson(T2Rec(ix))>>)
             [] part \in 7..10 -> \A ix \in {jx \in Tup3 : jx[1] % 4 = part - 7} : PrintT(<<"T", ToJson(T3Rec(ix))>>)
+            [] part = 11 -> /\ Assert(RandWF(0), "a seeded point is not well formed")
+                            /\ Assert(RandRankOK(0), "Cmp is not a total preorder / equality outside the documented cases on the seeded points")
+                            /\ \A i \in 1..NR : PrintT(<<"T", ToJson(RpRec(i))>>)
 Spec == Init /\ [][Next]_<<part, done>>
 =============================================================================
